@@ -2448,6 +2448,67 @@ def translate() -> tuple[str, dict]:
     E.lines.append(f'Definition g_placement_uses_at_arithmetic_sites : nat := {len(uses_in)}.')
     E.lines.append(f'Definition g_placement_uses_elsewhere : nat := {len(uses_out)}.')
 
+    # --- census of the engine database objects (round 4): EntityDef.engine_def() hands out objects of a process-wide cache of
+    # srctools.fgd (state outside instancing.py / vmf.py); collapse_one must only READ them: a local bound from engine_cache[...]
+    # / EntityDef.engine_def(...) / EntityDef(...) (and, transitively, from `<such>.kv[...]`) may be the base of an attribute or
+    # subscript load, the value stored into the caller's engine_cache, or an operand of a comparison - nothing else.
+    def _db_source(e: ast.expr, db: set[str]) -> bool:
+        if isinstance(e, ast.Subscript) and isinstance(e.value, ast.Name) and e.value.id == 'engine_cache':
+            return True
+        if isinstance(e, ast.Call) and ast.unparse(e.func) in ('EntityDef.engine_def', 'EntityDef'):
+            return True
+        if isinstance(e, ast.Subscript) and isinstance(e.value, ast.Attribute) and isinstance(e.value.value, ast.Name) and e.value.value.id in db:
+            return True
+        return False
+    db_names: set[str] = set()
+    grown = True
+    while grown:
+        grown = False
+        for n in ast.walk(c1):
+            if isinstance(n, ast.Assign) and len(n.targets) == 1 and isinstance(n.targets[0], ast.Name) and _db_source(n.value, db_names) \
+                    and n.targets[0].id not in db_names:
+                db_names.add(n.targets[0].id)
+                grown = True
+    db_reads: list[str] = []
+    db_other: list[str] = []
+    parent: dict[int, ast.AST] = {id(ch): nd for nd in ast.walk(c1) for ch in ast.iter_child_nodes(nd)}
+    for n in ast.walk(c1):
+        if isinstance(n, ast.Name) and n.id in db_names:
+            par = parent.get(id(n))
+            where = f'{n.id}@{n.lineno}'
+            if isinstance(n.ctx, ast.Store):
+                if not (isinstance(par, ast.Assign) and _db_source(par.value, db_names)):
+                    db_other.append('re-bound from elsewhere: ' + where)
+            elif isinstance(par, ast.Attribute) and par.value is n and isinstance(par.ctx, ast.Load):
+                top: ast.AST = par            # climb the chain of loads x.a[b].c ...: a call of a method anywhere on it may mutate
+                gp = parent.get(id(top))
+                while isinstance(gp, (ast.Attribute, ast.Subscript)) and gp.value is top and isinstance(gp.ctx, ast.Load):
+                    top, gp = gp, parent.get(id(gp))
+                if isinstance(gp, ast.Call) and gp.func is top:
+                    db_other.append('method call: ' + where)
+                elif isinstance(gp, ast.Call) and ast.unparse(gp.func) not in ('inst.fixup_key',):
+                    db_other.append('passed to a call: ' + where)
+                else:
+                    db_reads.append(where)
+            elif isinstance(par, ast.Assign) and par.value is n and len(par.targets) == 1 and isinstance(par.targets[0], ast.Subscript) \
+                    and isinstance(par.targets[0].value, ast.Name) and par.targets[0].value.id == 'engine_cache':
+                db_reads.append('kept in the caller\'s engine_cache: ' + where)
+            elif isinstance(par, ast.Compare):
+                db_reads.append(where)
+            else:
+                db_other.append(f'{type(par).__name__}: {where}')
+    # stores / deletes through such an object: ent_type.kv[...] = ..., kv.type = ..., del ent_type.kv[...]
+    for n in ast.walk(c1):
+        if isinstance(n, (ast.Attribute, ast.Subscript)) and isinstance(n.ctx, (ast.Store, ast.Del)):
+            base = n
+            while isinstance(base, (ast.Attribute, ast.Subscript)):
+                base = base.value
+            if isinstance(base, ast.Name) and base.id in db_names:
+                db_other.append(f'store through {base.id}@{n.lineno}')
+    side['engine_db_objects'] = {'locals': sorted(db_names), 'reads': db_reads, 'other_uses': db_other}
+    E.lines.append(f'Definition g_collapse_engine_db_reads : nat := {len(db_reads)}.')
+    E.lines.append(f'Definition g_collapse_engine_db_other_uses : nat := {len(db_other)}.')
+
     # name-typed keyvalues (type.is_ent_name, TARG_DEST_CLASS when not a classname): the value goes through fixup_name, whole
     name_br = [nd for nms, nd in branches if '<is_ent_name>' in nms]
     cls_br = [nd for nms, nd in branches if 'TARG_DEST_CLASS' in nms]
